@@ -529,6 +529,10 @@ pixman_transform_rotate (struct pixman_transform *forward,
 {
     struct pixman_transform t;
 
+    /* both rotation matrices contain -s */
+    if (s == INT32_MIN)
+	return FALSE;
+
     if (forward)
     {
 	pixman_transform_init_rotate (&t, c, s);
@@ -538,9 +542,6 @@ pixman_transform_rotate (struct pixman_transform *forward,
 
     if (reverse)
     {
-	if (s == INT32_MIN) /* -s is not representable */
-	    return FALSE;
-
 	pixman_transform_init_rotate (&t, c, -s);
 	if (!pixman_transform_multiply (reverse, reverse, &t))
 	    return FALSE;
